@@ -139,7 +139,10 @@ static void ro_snap(ro_ctx_t *c)
         B->vb_flush_limit, B->max_level, B->disable_vt_clustering);
     printf("user_frame_offset=%zu,user_frame_end=%zu,e_cap=%zu,e_used=%zu,e_avg=%zu", B->user_frame_offset, B->user_frame_end,
         E->capacity, E->used, E->used_average);
-    printf(",rm_buckets=%zu,rm_count=%zu,alloc_calls=%lld,emit_calls=%lld,live_errors=%lld} ", c->refmap.buckets, c->refmap.count, c->alloc_calls, c->emit_calls, c->live_errors);
+#ifndef RO_E_LIVE
+#define RO_E_LIVE (-1LL)
+#endif
+    printf(",rm_buckets=%zu,rm_count=%zu,alloc_calls=%lld,emit_calls=%lld,live_errors=%lld,e_live=%lld} ", c->refmap.buckets, c->refmap.count, c->alloc_calls, c->emit_calls, c->live_errors, (long long)RO_E_LIVE);
 }
 
 static void ro_fin(ro_ctx_t *c)
@@ -309,6 +312,9 @@ static void ro_run_line(char **tok, int ntok)
     c->res = (long long *)calloc((size_t)ntok + 1, sizeof(long long)); c->res2 = (long long *)calloc((size_t)ntok + 1, sizeof(long long));
     for (i = 1; i < ntok; ++i) if (ro_op(c, (size_t)(i - 1), tok[i])) break;
     ro_close(c); free(c);
+#ifdef RO_AFTER_CLOSE
+    RO_AFTER_CLOSE();
+#endif
     printf("\n"); fflush(stdout);
 }
 #endif
